@@ -752,7 +752,7 @@ def build(chk: Check) -> None:
             budget_s={"quick": 40, "thorough": 700})
     chk.sub("enum_edge", o_l1, enum=lambda tier: e_small(tier, True), exhaustive_tiers=("quick", "thorough"),
             budget_s={"quick": 40, "thorough": 700})
-    chk.sub("l1_main", o_l1, strategy=s_case((0, 0, 0)), n={"quick": 12000, "thorough": 1000000},
+    chk.sub("l1_main", o_l1, cov={"quick": 4000, "thorough": 600000}, strategy=s_case((0, 0, 0)), n={"quick": 12000, "thorough": 1000000},
             budget_s={"quick": 60, "thorough": 600})
     chk.sub("l1_final_multi", o_l1, strategy=s_case((1, 0, 0)), n={"quick": 6000, "thorough": 400000},
             budget_s={"quick": 40, "thorough": 300})
@@ -761,7 +761,7 @@ def build(chk: Check) -> None:
     chk.sub("l1_part_range", o_l1, strategy=s_case((0, 0, 1)), n={"quick": 3000, "thorough": 150000},
             budget_s={"quick": 30, "thorough": 200})
     chk.sub("l1_mixed", o_l1, strategy=s_case("mixed"), n={"quick": 5000, "thorough": 250000},
-            budget_s={"quick": 35, "thorough": 250})
+            budget_s={"quick": 35, "thorough": 250}, cov={"quick": 4000, "thorough": 600000})
     chk.sub("l1_nowriter", o_l1, strategy=s_case((0, 0, 0), writer=False), n={"quick": 2000, "thorough": 60000},
             budget_s={"quick": 25, "thorough": 100})
     chk.sub("l2_dask", o_l2, strategy=s_case((0, 0, 0), l2=True), n={"quick": 700, "thorough": 20000},
